@@ -3,8 +3,10 @@ EXTENDS Ops, Json
 CONSTANTS EmitCases, Derives, MaxFields, MaxItems
 VARIABLES c, phase
 
-Variants == [k : {"tuple", "named"}, n : 1..MaxFields] \cup {[k |-> "unit", n |-> 0]}
-StructShapes == {[enum |-> FALSE, vs |-> <<v>>] : v \in Variants \ {[k |-> "unit", n |-> 0]}}
+\* enum variants include the field-less non-unit forms `V()` and `V {}` (they are not unit variants: operators map
+\* their zero fields and succeed)
+Variants == [k : {"tuple", "named"}, n : 0..MaxFields] \cup {[k |-> "unit", n |-> 0]}
+StructShapes == {[enum |-> FALSE, vs |-> <<v>>] : v \in {w \in Variants : w.k # "unit" /\ w.n >= 1}}
 EnumShapes == {[enum |-> TRUE, vs |-> <<v>>] : v \in Variants}
               \cup {[enum |-> TRUE, vs |-> <<v, w>>] : v \in Variants, w \in Variants}
               \cup {[enum |-> TRUE, vs |-> <<v, w, [k |-> "unit", n |-> 0]>>] : v \in Variants, w \in Variants}
